@@ -115,6 +115,7 @@ SPECIAL = {
     'Sedov': Entry(points=pts1(0.05, 1.2), t=lambda rng: rng.uniform(0.3, 1.0), min_n=2),
     'EPpiston': Entry(points=pts1(0.05, 1.0), t=lambda rng: rng.uniform(0.5, 1.0), min_n=2),
     'SteadyDetonationReactionZone': Entry(points=pts1(0.0, 1.0), t=lambda rng: rng.uniform(0.5, 1.5), min_n=2),
+    'SuOlson': Entry(points=pts1(0.05, 3.0), t=lambda rng: 10 ** rng.uniform(-11.5, -9.5)),     # tau = c kappa t in [0.1, 10]
     'EscapeOfHEProducts': Entry(points=pts1(0.05, 3.0), t=lambda rng: rng.uniform(0.5, 4.0)),
 }
 for _g in ('Planar', 'Cylindrical', 'Spherical'):
